@@ -17,7 +17,7 @@ BUDGET = {"quick": 2500, "thorough": 50000}
 MIN_NONTRIVIAL = {"quick": 200, "thorough": 2000}
 RULE = (
     "histories: 1-5 kernel bodies (1-3 integer add/sub/mul or float addf/subf/mulf operations over 2-3 data inputs with seeded operand "
-    "routing; in a seventh of the histories kernels may ignore one of their inputs, in a tenth of the histories kernels may contain operations whose result nobody reads) are converted by convert_generic_body_to_phs and merged one after the other into one abstract "
+    "routing; in a seventh of the histories kernels may ignore one of their inputs or (integer kernels) have a constant operand, in a tenth of the histories kernels may contain operations whose result nobody reads) are converted by convert_generic_body_to_phs and merged one after the other into one abstract "
     "PE by append_to_abstract_graph; after every merge every kernel merged so far is decoded again (decode_abstract_graph) and the abstract PE "
     "is evaluated under the decoded switch values by an independent PE interpreter on an exhaustive small grid plus seeded data points and "
     "compared with direct evaluation of the kernel; the number of decoded values must equal get_true_switches(). A history machine without "
@@ -35,22 +35,29 @@ def _f32(x):
 FOPS = {"addf": lambda x, y: _f32(x + y), "subf": lambda x, y: _f32(x - y), "mulf": lambda x, y: _f32(x * y)}
 
 
-def gen_kernel(rng, ops, nin, dead=False, partial=False):
+def gen_kernel(rng, ops, nin, dead=False, partial=False, consts=False):
     ins = [f"%a{i}" for i in range(nin)]
     for _ in range(200):
         n = rng.randint(1, 3)
         vals = list(ins)
         body = []
         used = set()
+        if consts:
+            # a constant operand (integer kernels): ["const", value, None, name]
+            body.append(["const", rng.choice([3, 7]), None, "%k0"])
+            vals.append("%k0")
         for k in range(n):
             op = rng.choice(ops)
             x, y = rng.choice(vals), rng.choice(vals)
+            if consts and k == n - 1 and "%k0" not in {b_ for b in body[1:] for b_ in (b[1], b[2])} | {x, y}:
+                y = "%k0"
             body.append([op, x, y, f"%v{k}"])
             vals.append(f"%v{k}")
             used |= {x, y}
         if not set(ins) <= used and not partial:
             continue  # (partial: a kernel may ignore one of its inputs)
-        if not dead and any(not any(f"%v{k}" in (b[1], b[2]) for b in body[k + 1 :]) for k in range(n - 1)):
+        ops_only = [b for b in body if b[0] != "const"]
+        if not dead and any(not any(f"%v{k}" in (b[1], b[2]) for b in ops_only[k + 1 :]) for k in range(n - 1)):
             continue  # (dead: operations whose result nobody reads are allowed, they may even be the only reader of an input)
         return body
     return [[ops[0], ins[0], ins[1], "%v0"]] + ([[ops[0], "%v0", ins[2], "%v1"]] if nin == 3 else [])
@@ -64,7 +71,8 @@ def gen_case(rng, tier):
     nin = rng.choice([2, 2, 3])
     dead = rng.random() < 0.2  # kernels may contain operations whose result is not used
     partial = rng.random() < 0.15  # kernels may ignore one of their inputs
-    kernels = [gen_kernel(rng, ops, nin, dead and rng.random() < 0.5, partial and rng.random() < 0.5) for _ in range(rng.randint(1, 5))]
+    consts = not flt and rng.random() < 0.15  # kernels with a constant operand (3 or 7)
+    kernels = [gen_kernel(rng, ops, nin, dead and rng.random() < 0.5, partial and rng.random() < 0.5, consts and rng.random() < 0.7) for _ in range(rng.randint(1, 5))]
     pts = [[rng.randrange(1, 1000) for _ in range(nin)] for _ in range(6)]
     case = {"float": flt, "nin": nin, "kernels": kernels, "points": pts}
     if partial:
@@ -75,7 +83,7 @@ def gen_case(rng, tier):
 def kernel_eval(body, data, table):
     env = {f"%a{i}": v for i, v in enumerate(data)}
     for op, x, y, res in body:
-        env[res] = table[op](env[x], env[y])
+        env[res] = x if op == "const" else table[op](env[x], env[y])
     return env[body[-1][3]]
 
 
@@ -88,7 +96,7 @@ def to_pe(body, nin, flt, generic_only=False):
 
     ty = "f32" if flt else "i32"
     mt = f"memref<4x{ty}>"
-    lines = "\n".join(f"  {res} = arith.{op} {x}, {y} : {ty}" for op, x, y, res in body)
+    lines = "\n".join(f"  {res} = arith.constant {x} : {ty}" if op == "const" else f"  {res} = arith.{op} {x}, {y} : {ty}" for op, x, y, res in body)
     maps = ", ".join(["affine_map<(d0) -> (d0)>"] * (nin + 1))
     args = ", ".join([f"%a{i} : {ty}" for i in range(nin)] + [f"%o : {ty}"])
     names = ", ".join(f"%A{i}" for i in range(nin))
@@ -124,21 +132,34 @@ def pe_eval(pe, data, switch_list, table):
         return ("too-many-switch-values",)
     env = dict(zip(pe.data_operands(), data))
     env.update(sw)
-    for op in pe.body.block.ops:
-        if isinstance(op, phs.ChooseOp):
-            if env[op.switch] >= len(op.regions):
-                return ("switch-out-of-range",)
-            reg = op.regions[env[op.switch]]
-            inner = reg.block.first_op
-            benv = dict(zip(reg.block.args, [env[o] for o in op.data_operands]))
-            f = table[inner.name.split(".")[1]]
-            env[op.res[0]] = f(benv[inner.operands[0]], benv[inner.operands[1]])
-        elif isinstance(op, phs.MuxOp):
-            env[op.res] = env[op.rhs] if env[op.switch] == 1 else env[op.lhs]
-        elif isinstance(op, phs.YieldOp):
-            return env[op.operands[0]]
-        else:
-            raise RuntimeError(op.name)
+    # the element is a dataflow graph (combinational hardware): evaluated in dependence order, not in block order
+    pending = list(pe.body.block.ops)
+    while pending:
+        rest = []
+        for op in pending:
+            if any(o not in env for o in op.operands):
+                rest.append(op)
+                continue
+            if isinstance(op, phs.ChooseOp):
+                if env[op.switch] >= len(op.regions):
+                    return ("switch-out-of-range",)
+                reg = op.regions[env[op.switch]]
+                inner = reg.block.first_op
+                benv = dict(zip(reg.block.args, [env[o] for o in op.data_operands]))
+                if inner.name == "arith.constant":
+                    env[op.res[0]] = inner.value.value.data
+                else:
+                    f = table[inner.name.split(".")[1]]
+                    env[op.res[0]] = f(benv[inner.operands[0]], benv[inner.operands[1]])
+            elif isinstance(op, phs.MuxOp):
+                env[op.res] = env[op.rhs] if env[op.switch] == 1 else env[op.lhs]
+            elif isinstance(op, phs.YieldOp):
+                return env[op.operands[0]]
+            else:
+                raise RuntimeError(op.name)
+        if len(rest) == len(pending):
+            return ("combinational-loop",)
+        pending = rest
     return ("no-yield",)
 
 
@@ -151,7 +172,7 @@ def execute(case):
     table = FOPS if case["float"] else IOPS
     nin, flt = case["nin"], case["float"]
     for k in case["kernels"]:
-        used = {x for b in k for x in (b[1], b[2])}
+        used = {x for b in k if b[0] != "const" for x in (b[1], b[2])}
         if not {f"%a{i}" for i in range(nin)} <= used and not case.get("unused_inputs"):
             out["status"] = "rejected"
             out["rejected"] = "workload:kernel-with-unused-input"
